@@ -6,6 +6,8 @@ EXPLANATION = ("Kernel contracts on the Lorentz-vector code (shared with C11) ar
                "inversions and identical-particle exchanges.")
 ASSUMPTIONS = ["A-MATH: helicity-formalism composition theorem (DESIGN C01) is assumed, only its premises are proved"]
 
+EXPLANATION += (' Proved on real chains with opaque callees: cal_chain_boost nests the rest-frame boosts along the decay path starting from the frame the event is given in; frame matrices are path products.')
+
 from vt.contracts import angle  # noqa: F401,E402
 from vt.contracts import iface_amp  # noqa: F401,E402
 from vt.contracts import amp_assembly  # noqa: F401,E402  (group level: density == sum_hel |sum_k A_k|^2 >= 0)
